@@ -23,9 +23,22 @@ def conv(typ, b):
     return TYPES[typ](bytes(b))
 
 
-def rec_k2i(op, typ, kmer):
+def rec_k2i(op, typ, kmer, prev=None):
     f = gk.kmer_to_index if op == 'k2i' else gk.kmer_to_index_rc
-    arg = conv(typ, kmer)
+    if typ in ('bytearray-reused', 'bytes-after-reused'):
+        # ONE mutable buffer converted with other contents first (a sliding-window buffer), then refilled in place; the k-mer is then given
+        # as that buffer itself or as fresh bytes equal to its new contents
+        buf = bytearray(prev if prev is not None else kmer)
+        for g in (gk.kmer_to_index, gk.kmer_to_index_rc):
+            try:
+                g(buf)
+            except Exception:
+                pass
+        buf[:] = bytes(kmer)
+        arg = buf if typ == 'bytearray-reused' else bytes(kmer)
+        typ = 'bytes'
+    else:
+        arg = conv(typ, kmer)
     r = dict(op=op, typ=typ, kmer=(list(kmer) if typ == 'text' else blist(kmer)), ok=False, err='', digits=[], val=-1, inrange=True)
     try:
         idx = f(arg)
@@ -78,7 +91,7 @@ class Fam(core.Family):
     def execute(self, inp):
         op = inp[0]
         if op in ('k2i', 'k2irc'):
-            return rec_k2i(op, inp[1], (inp[2] if inp[1] == 'text' else bytes(inp[2])))
+            return rec_k2i(op, inp[1], (inp[2] if inp[1] == 'text' else bytes(inp[2])), prev=(bytes(inp[3]) if len(inp) > 3 else None))
         if op == 'i2k':
             return rec_i2k(inp[1])
         return rec_revcomp(bytes(inp[1]), involution=(op == 'involution'))
@@ -204,6 +217,9 @@ class Random(Fam):
             if conv(typ, km) is None:
                 typ = 'bytes'
             yield [rng.choice(['k2i', 'k2irc']), typ, list(km)]
+            if rng.random() < 0.25:
+                other = [rng.choice(b'ACGT') for _ in range(k)]
+                yield [rng.choice(['k2i', 'k2irc']), rng.choice(['bytearray-reused', 'bytes-after-reused']), list(km), other]
             yield ['i2k', [rng.randrange(4) for _ in range(k)]]
             m = rng.randint(0, 200)
             yield ['involution', [rng.choice(b'ACGTacgtNn-*') if rng.random() < 0.9 else rng.randrange(256) for _ in range(m)]]
